@@ -14,6 +14,7 @@ Record config := {
   parallel_blocks : N;
   base_overhead : N; output_overhead : N; max_tx_size : N; max_tx_version : N;
   addr_size : N; pubkey_size : N; signature_size : N;
+  wallet_prefix : list N; delegate_prefix : list N;   (* config.WALLET_PREFIX, config.DELEGATE_ADDRESS_PREFIX as byte codes *)
   cp_bin_len : N; cp_interval : N; cp_max : N; cp_bin_header : N; cp_digest_ok : bool;
   cfg_end : unit
 }.
